@@ -118,7 +118,18 @@ def spellings_for(case, env_types):
         out.append("aug")
     if spec.kind in ("u1", "u2") and spec.npf is not None:
         out += ["out:mg", "out:np", "outarr:mg", "outarr:np"] if anyt else ["out:mg", "outarr:mg"]
+    if st["fn"] in POSITIONAL_FNS and kw and "dtype" not in kw:
+        # the options handed over POSITIONALLY, in the order the mygrad function documents (axis[, ddof], keepdims)
+        out.append("pos:mg")
+        if spec.meth is not None and first_t:
+            out.append("pos:meth")
     return out
+
+
+POSITIONAL_FNS = {"sum": ("axis", "keepdims"), "mean": ("axis", "keepdims"), "prod": ("axis", "keepdims"), "max": ("axis", "keepdims"),
+                  "min": ("axis", "keepdims"), "var": ("axis", "ddof", "keepdims"), "std": ("axis", "ddof", "keepdims"),
+                  "cumsum": ("axis",), "cumprod": ("axis",)}
+POS_DEFAULTS = {"axis": None, "keepdims": False, "ddof": 0}
 
 
 def build_variant(case, sp):
@@ -127,6 +138,13 @@ def build_variant(case, sp):
     res = st["out"]
     if sp in ("mg", "np", "meth", "op"):
         st["sp"] = sp
+    elif sp.startswith("pos:"):
+        order = POSITIONAL_FNS[st["fn"]]
+        kw = dict(st.get("kw", {}))
+        last = max(i for i, k in enumerate(order) if k in kw) if any(k in kw for k in order) else -1
+        st["a"] = list(st["a"]) + [kw.pop(k) if k in kw else POS_DEFAULTS[k] for k in order[: last + 1]]
+        st["kw"] = kw
+        st["sp"] = sp[4:]
     elif sp == "aug":
         x = st["a"][0][1]
         pre = {"k": "call", "out": "__t", "fn": "multiply", "a": [["r", x], ["a", case["first_dtype"], [], [1.0]]], "sp": "mg"}
@@ -377,6 +395,25 @@ def run_negative():
                     ("any", lambda t: (np.any(t), mg.any(t), t.any())), ("comparisons", lambda t: (t < 1, t <= 1, t > 1, t >= 1, t == 1, t != 1))):
         rs = f(x)
         chk(name, all(not isinstance(r, mg.Tensor) for r in rs), f"{name} returned a Tensor")
+    for uf in sorted(tb._REGISTERED_CONST_ONLY_UFUNC, key=lambda u: u.__name__):
+        if uf.nin != 2 or uf.nout != 1:
+            continue
+        for meth in ("reduce", "accumulate", "outer"):
+            a_nc = (x, x) if meth == "outer" else (x,)
+            a_c = (c, c) if meth == "outer" else (c,)
+            try:
+                getattr(uf, meth)(*a_nc)
+                chk(f"{uf.__name__}.{meth}:nonconst", False, f"np.{uf.__name__}.{meth} accepted a non-constant tensor")
+            except ValueError:
+                chk(f"{uf.__name__}.{meth}:nonconst", True, "")
+            except Exception as e:
+                chk(f"{uf.__name__}.{meth}:nonconst", False, f"np.{uf.__name__}.{meth}(non-constant) raised {type(e).__name__} instead of ValueError")
+            try:
+                r = getattr(uf, meth)(*a_c)
+                want = getattr(uf, meth)(*(q.data for q in a_c))
+                chk(f"{uf.__name__}.{meth}:const", not isinstance(r, mg.Tensor) and np.array_equal(r, want), f"np.{uf.__name__}.{meth}(constant) returned {type(r).__name__} / wrong values")
+            except Exception as e:
+                chk(f"{uf.__name__}.{meth}:const", False, f"np.{uf.__name__}.{meth}(constant tensor) raised {type(e).__name__}: {e}")
     for meth in ("reduce", "accumulate", "outer"):
         try:
             r = getattr(np.add, meth)(x, x) if meth == "outer" else getattr(np.add, meth)(x)
